@@ -510,15 +510,28 @@ class State:
 
     # -- numeric facts
     def add_subst(self, atom, rf: RF):
+        from .poly import PolyError
         rf = self.norm(rf)
         if atom in rf.atoms():
             return
         # apply to existing substitutions
-        for k in list(self.subst):
-            self.subst[k] = self.subst[k].subst({atom: rf})
+        try:
+            for k in list(self.subst):
+                self.subst[k] = self.subst[k].subst({atom: rf})
+        except PolyError:
+            raise Infeasible
         self.subst[atom] = rf
 
     def norm(self, rf: RF) -> RF:
+        from .poly import PolyError
+        try:
+            return self._norm(rf)
+        except PolyError:
+            # an equality fact of this path makes an earlier divisor zero: the concrete run would have
+            # raised ZeroDivisionError before reaching this point - the path is infeasible
+            raise Infeasible
+
+    def _norm(self, rf: RF) -> RF:
         for _ in range(8):
             if not (rf.atoms() & set(self.subst)) and not (("n",) in self.subst and rf.has_sym_exp()):
                 return rf
@@ -590,6 +603,32 @@ class State:
         return False
 
     # -- rounding atoms
+    def canon_diff(self, rf: RF) -> RF:
+        """Sign-preserving canonical form of a difference: for every positive-valued atom (scales, quanta) the
+        minimal exponent over all monomials is shifted to 0, so  mu(a) - mu(b),  mu(a)/mu(b) - 1  and
+        1 - mu(b)/mu(a)  ... all become  mu(a) - mu(b)."""
+        rf = self.norm(rf)
+        if not rf.d.is_const() or rf.n.is_zero():
+            return rf
+        from .poly import Poly
+        from fractions import Fraction
+        atoms = {}
+        monos = list(rf.n.t)
+        for m in monos:
+            for a, e in m:
+                if a[0] in ("mu", "rho", "Qm", "sf", "pw10", "beta") and e[1] == 0:
+                    atoms.setdefault(a, [])
+        for a in atoms:
+            exps = []
+            for m in monos:
+                d = dict(m)
+                exps.append(d[a][0] if a in d else 0)
+            atoms[a] = min(exps)
+        shift = tuple(sorted(((a, (-e, 0)) for a, e in atoms.items() if e != 0), key=lambda kv: repr(kv[0])))
+        if not shift:
+            return rf
+        return rf * RF(Poly({shift: Fraction(1)}))
+
     def integer_valued(self, rf: RF) -> bool:
         """Z-linear combination of products of integer atoms (precision-0 roundings, grid indices)."""
         rf = self.norm(rf)
